@@ -186,7 +186,11 @@ func (s *Solver) Check() SatResult {
 	default:
 		s.NUnk++
 	}
-	s.Time += time.Since(t0)
+	dt := time.Since(t0)
+	s.Time += dt
+	if s.log != nil {
+		fmt.Fprintf(s.log, "; -> %s in %.1fms\n", res, float64(dt.Microseconds())/1000)
+	}
 	return res
 }
 
